@@ -1,11 +1,24 @@
-(* C06 — slashing bonded stake.  Proved: the slash callback leaves the staked total
-   of every asset unchanged, in every reachable state and for every outcome
-   (value is redistributed, not destroyed).  Custody minus pending unbondings,
-   proportionality (1-f)*g / g of position values: check_C06 on implementation
-   traces + exact correspondence of shares, assets and bank (partial). *)
+(* C06 — slashing bonded stake.
+   Proved, for every reachable state and every fraction:
+   (a) the slash callback leaves the staked total of every asset unchanged, whatever its outcome
+       (value is redistributed, not destroyed): C06_staked_totals_untouched;
+   (b) proportional and targeted, in share form: when the callback returns, the slashed
+       validator's validator shares are, in EVERY asset, the old ones minus exactly the fraction f
+       of them (the 18-digit product the code computes); the asset's total validator shares
+       lose exactly that amount; no other validator's shares in any asset move; no asset
+       appears or disappears: C06_bonded_slash_is_proportional_and_targeted.
+   The value of a position on validator w in an asset with staked total T, total validator
+   shares S, w's validator shares s_w is  T * (s_w / S) * (its shares / delegator shares of w).
+   By (a) and (b), with S' = S - f*s_v:  a position on v is multiplied by (1-f)*S/S', every other
+   position of the asset by g = S/S' >= 1 (C06_value_factors: the two ratios as cross-multiplied
+   identities).  Delegator shares move in the callback only through the slash of pending
+   redelegations out of v (C07/C08), which redistributes within the destination validator.
+   Custody minus pending unbondings unchanged: C01's theorem.  check_C06 evaluates (a), (b) and
+   the delegator-share frame on every callback of the implementation's traces. *)
 From Coq Require Import ZArith List Bool.
-From Alliance Require Import Num KMap Types Monad Model Step Spec Hoare.
-From Alliance.Proofs Require Import Frames.
+From Alliance Require Import Num KMap KMapSorted Types Monad Model Step Spec Hoare.
+From Alliance.Proofs Require Import Frames ShareLedger BondedSlash.
+From Coq Require Import Lia.
 Import ListNotations.
 Open Scope Z_scope.
 
@@ -13,3 +26,73 @@ Theorem C06_staked_totals_untouched : forall h v f d, let s := run init_state h 
   staked_total (fst (step s (OHookSlash v f))) d = staked_total s d.
 Proof. exact slash_keeps_every_staked_total. Qed.
 Print Assumptions C06_staked_totals_untouched.
+
+Theorem C06_bonded_slash_is_proportional_and_targeted : forall v0 dn0 h v f s',
+  adm_sl_run v0 dn0 init_state h ->
+  let s := run init_state h in
+  step s (OHookSlash v f) = (s', R_OK) ->
+  (forall d, vshares_of s' v d = vshares_of s v d - dmul (vshares_of s v d) f) /\
+  (forall w d, w <> v -> vshares_of s' w d = vshares_of s w d) /\
+  (forall d a, kget (assets s) [d] = Some a ->
+     exists b, kget (assets s') [d] = Some b /\ a_vshares b = a_vshares a - dmul (vshares_of s v d) f) /\
+  (forall d, kget (assets s) [d] = None -> kget (assets s') [d] = None).
+Proof. exact bonded_slash_reachable. Qed.
+Print Assumptions C06_bonded_slash_is_proportional_and_targeted.
+
+(* the same for ANY state with sorted records (not only reachable ones) *)
+Theorem C06_bonded_slash_step : forall s v f s',
+  ksorted (valinfos s) -> CoinFacts.csorted (vi_vshares (vinfo_or_empty s v)) -> AK s ->
+  step s (OHookSlash v f) = (s', R_OK) ->
+  (forall d, vshares_of s' v d = vshares_of s v d - dmul (vshares_of s v d) f) /\
+  (forall w d, w <> v -> vshares_of s' w d = vshares_of s w d) /\
+  (forall d a, kget (assets s) [d] = Some a ->
+     exists b, kget (assets s') [d] = Some b /\ a_vshares b = a_vshares a - dmul (vshares_of s v d) f) /\
+  (forall d, kget (assets s) [d] = None -> kget (assets s') [d] = None).
+Proof. exact bonded_slash_step. Qed.
+Print Assumptions C06_bonded_slash_step.
+
+(* the two value factors, in exact rational arithmetic.  The token value of validator w's stake
+   in an asset is T * s_w / S.  With c = f * s_v removed from s_v and from S (theorem above) and
+   T unchanged (C06_staked_totals_untouched):
+     every other validator's stake, hence every position on it, is multiplied by g = S / (S - c) >= 1;
+     the slashed validator's by (1 - c / s_v) * g, i.e. (1 - f) * g. *)
+Require Import QArith Qfield.
+Definition stake_value (T S sw : Q) : Q := (T * sw / S)%Q.
+Theorem C06_value_factors : forall T S sv sw c : Q, (0 < c)%Q -> (c < S)%Q -> (c <= sv)%Q -> ~ (sv == 0)%Q ->
+  (stake_value T (S - c) sw == stake_value T S sw * (S / (S - c)))%Q /\
+  (stake_value T (S - c) (sv - c) == stake_value T S sv * (1 - c / sv) * (S / (S - c)))%Q /\
+  (1 <= S / (S - c))%Q.
+Proof.
+  intros T S sv sw c Hc HcS Hcv Hsv. unfold stake_value.
+  assert (HS : ~ (S == 0)%Q) by (intro E; rewrite E in HcS; apply (Qlt_irrefl 0); apply Qlt_trans with c; assumption).
+  assert (HS' : ~ (S - c == 0)%Q).
+  { intro E. apply (Qlt_irrefl c). setoid_replace S with c in HcS; [exact HcS|].
+    setoid_replace S with ((S - c) + c)%Q by ring. rewrite E. ring. }
+  split; [field; split; assumption|]. split; [field; repeat split; assumption|].
+  apply Qle_shift_div_l.
+  - setoid_replace 0%Q with (c - c)%Q by ring. unfold Qminus. apply Qplus_lt_l. exact HcS.
+  - setoid_replace (1 * (S - c))%Q with (S - c)%Q by ring.
+    setoid_replace S with (S - 0)%Q at 2 by ring. unfold Qminus. apply Qplus_le_r. apply Qopp_le_compat. apply Qlt_le_weak. exact Hc.
+Qed.
+Print Assumptions C06_value_factors.
+Close Scope Q_scope.
+Open Scope Z_scope.
+
+(* non-vacuity: a history with two validators and two assets; validator 10 is slashed by 10%:
+   its shares in both assets lose exactly a tenth, validator 11's are untouched, the asset totals
+   lose the same amounts *)
+Definition C06_example : list Op :=
+  [EStaking [(10, mkSVal 3 1000000 (1000000 * ONE)); (11, mkSVal 3 1000000 (1000000 * ONE))] []; EUnbondingTime 100; EParams 0 50 ZERO_TIME;
+   EGenesisAsset (mkAsset 1 ONE 0 (5 * ONE) 0 0 0 0 ONE 0 0 true);
+   EGenesisAsset (mkAsset 2 ONE 0 (5 * ONE) 0 0 0 0 ONE 0 0 true);
+   EBank [(100, 1, 1000); (100, 2, 1000); (101, 1, 1000)] [];
+   OBeginBlock 10 1; ODelegate 100 10 1 500; ODelegate 100 10 2 300; ODelegate 101 11 1 400; OEndBlock; OBeginBlock 70 2].
+Example C06_nonvacuous :
+  let s := run init_state C06_example in
+  let '(s', c) := step s (OHookSlash 10 (ONE / 10)) in
+  c = R_OK /\ adm_sl_run 10 1 init_state C06_example /\
+  (vshares_of s 10 1, vshares_of s' 10 1) = (500 * ONE, 450 * ONE) /\
+  (vshares_of s 10 2, vshares_of s' 10 2) = (300 * ONE, 270 * ONE) /\
+  (vshares_of s 11 1, vshares_of s' 11 1) = (400 * ONE, 400 * ONE) /\
+  (staked_total s 1, staked_total s' 1) = (900, 900).
+Proof. vm_compute. repeat split; try reflexivity; try discriminate; try (intro; discriminate). Qed.
